@@ -46,7 +46,7 @@ func runC17(p *engine.Prog, r *engine.Report) {
 	r.Min("R17.1-lock-discipline", 12)
 	r.Min("R17.2-snapshots", 4)
 	r.Min("R17.3-reload", 2)
-	r.Min("R17.4-per-job-replacement", 2)
+	r.Min("R17.4-per-job-replacement", 3)
 
 	// ---- R17.1
 	perFn := map[string]int{}
@@ -347,11 +347,74 @@ func runC17(p *engine.Prog, r *engine.Report) {
 			if n == 0 {
 				probs = append(probs, "no entries are kept on reload")
 			}
+			// the decision to keep an entry depends on the entry's job and on the configuration being applied only,
+			// not on other state of the explorer (which is reloaded separately and may lag or have skipped a job)
+			recv := fi.T(ap.Params[0]).S
+			table := recv + "." + fETargets.Name()
+			for _, rr := range *mm.Referrers() {
+				mu, ok := rr.(*ssa.MapUpdate)
+				if !ok || mu.Map != ssa.Value(mm) {
+					continue
+				}
+				lp := loopOf(fi, mu.Block())
+				before := map[string]bool{}
+				if lp != nil {
+					for _, g := range fi.Guards(lp.header) {
+						before[g] = true
+					}
+				}
+				aboutJob := false
+				for _, g := range fi.Guards(mu.Block()) {
+					if before[g] || engine.IsStructuralLiteral(g) || strings.Contains(g, "rangeok:") {
+						continue
+					}
+					rest := strings.ReplaceAll(g, table, "")
+					if strings.Contains(rest, recv+".") {
+						probs = append(probs, "whether an entry is kept depends on "+short(g)+" - state of the explorer other than the table itself - instead of the job list of the configuration being applied")
+					}
+					if strings.Contains(g, table+"[") {
+						aboutJob = true
+					}
+				}
+				if !aboutJob {
+					probs = append(probs, "entries are kept without looking at the entry's job")
+				}
+			}
 		}
 		r.Check(len(probs) == 0, "R17.3-reload", "explorer reload "+engine.FuncName(ap), engine.FuncName(ap), "a new table holding the old entries (same key) of jobs that still exist", strings.Join(probs, "; "))
 	}
 
 	// ---- R17.4
+	// who may replace the tables as a whole: the constructor and the reload only; an update touches the keys of the
+	// jobs it carries (the discovery manager's rounds need not contain every configured job)
+	{
+		var probs []string
+		nStores := 0
+		for _, fn := range p.Funcs {
+			if !engine.InPkg(fn, pkgDisc) {
+				continue
+			}
+			for _, in := range allInstrs(fn) {
+				st, ok := in.(*ssa.Store)
+				if !ok {
+					continue
+				}
+				fa, ok := st.Addr.(*ssa.FieldAddr)
+				if !ok || (engine.FieldOf(fa) != fAct && engine.FieldOf(fa) != fDrop) {
+					continue
+				}
+				nStores++
+				if _, fresh := fa.X.(*ssa.Alloc); fresh {
+					continue
+				}
+				if obj, ok := fn.Object().(*types.Func); ok && obj == mDiscApply {
+					continue
+				}
+				probs = append(probs, engine.FieldOf(fa).Name()+" is replaced as a whole in "+engine.FuncName(fn)+" ("+p.Rel(st.Pos())+"): jobs that the update does not carry lose their targets")
+			}
+		}
+		r.Check(len(probs) == 0 && nStores > 0, "R17.4-per-job-replacement", "whole-table stores of the discovery tables", "who-may-write table of activeTargets/dropTargets", "only the constructor and the reload install a whole table; updates write per job", strings.Join(probs, "; "))
+	}
 	// discovery: per-job slices are rebuilt per job
 	for _, fn := range p.Funcs {
 		if !engine.InPkg(fn, pkgDisc) {
